@@ -64,8 +64,13 @@ func buildVal(v jVal) r.Element {
 type jsonCase struct {
 	Op   string `json:"op"`
 	Val  jVal   `json:"val"`
+	Bad  jVal   `json:"bad"` // "genafter": a value 生成JSON must refuse, generated (and caught) BEFORE val is generated
 	Text string `json:"text"`
 }
+
+// a refused generation / a failed parse leaves nothing behind: the next 生成JSON / 解析JSON of the same execution is unaffected
+const jsonGenAfter = "导入《@JSON》\n输入坏、甲、乱\n如何试生？\n    输出（生成JSON：坏）\n    拦截异常：\n        输出“ERR”\n\n如何试解？\n    输出（解析JSON：乱）\n    拦截异常：\n        输出“ERR”\n\n" +
+	"令一 = （试生）\n令二 = （试解）\n令文 = （生成JSON：甲）\n令三 = （试生）\n输出【一，二，文，三，（生成JSON：甲），（解析JSON：文） 为 甲】\n"
 
 const jsonGen = "导入《@JSON》\n输入甲\n输出（生成JSON：甲）\n"
 const jsonParse = "导入《@JSON》\n输入甲\n输出（解析JSON：甲）\n"
@@ -88,6 +93,8 @@ func handleJSON(raw json.RawMessage) interface{} {
 		o = zn.RunScript(jsonRound, r.ElementMap{"甲": buildVal(c.Val)})
 	case "catchparse":
 		o = zn.RunScript(jsonCatchParse, r.ElementMap{"甲": value.NewString(c.Text)})
+	case "genafter":
+		o = zn.RunScript(jsonGenAfter, r.ElementMap{"坏": buildVal(c.Bad), "甲": buildVal(c.Val), "乱": value.NewString(c.Text)})
 	case "catchgen":
 		o = zn.RunScript(jsonCatchGen, r.ElementMap{"甲": buildVal(c.Val)})
 	}
